@@ -37,6 +37,7 @@ typedef struct {
   int eos_seen;
   int brinit_logged;
   int ready;                        /* analysis_init + block_init succeeded and not cleared */
+  int fed;                          /* end of input already signalled */
 } enc_t;
 static enc_t E[NE];
 
@@ -148,6 +149,7 @@ static void cmd(char **tok,int nt){
   if((!strcmp(c,"einit")&&x->s_vi==1) ||      /* vorbis_info_init on a live struct would orphan it: not a legal use */
      (!strcmp(c,"eainit")&&(!(x->s_vi==1&&x->stone)||x->s_vd==1)) ||
      ((!strcmp(c,"ehdr")||!strcmp(c,"ewrite")||!strcmp(c,"eeof")||!strcmp(c,"brunit")||!strcmp(c,"ab"))&&!x->ready) ||
+     ((!strcmp(c,"ewrite")||!strcmp(c,"eeof"))&&x->fed) ||          /* end of input is signalled once; nothing may be submitted after it */
      ((!strcmp(c,"esetup")||!strcmp(c,"ectl")||!strcmp(c,"evbr")||!strcmp(c,"eman")||!strcmp(c,"eivbr")||!strcmp(c,"eiman"))&&x->s_vi!=1)){
     ev_begin("Skip"); ev_i("x",e); ev_s("cmd",c); ev_end(); return; }
   if(!strcmp(c,"einit")){ vorbis_info_init(&x->vi); x->s_vi=1; x->setup_ok=0; x->stone=0; ev_begin("InfoInit"); ev_i("x",e); ev_vi(x); ev_end(); }
@@ -185,7 +187,7 @@ static void cmd(char **tok,int nt){
     int ret=vorbis_analysis_init(&x->vd,&x->vi); x->s_vd=1; int rb=-1; if(ret==0){ rb=vorbis_block_init(&x->vd,&x->vb); x->s_vb=1; }
     x->r.s=(uint64_t)(e+1)*2654435761ULL+777; x->env=0.5; x->envleft=0; x->submitted=0; x->eos_seen=0; x->brinit_logged=0;
     ev_begin("AnalysisInit"); ev_i("x",e); ev_i("ret",ret); ev_i("rb",rb); ev_vi(x); ev_end();
-    x->ready=(ret==0&&rb==0);
+    x->ready=(ret==0&&rb==0); x->fed=0;
     if(ret==0){ x->managed=bms_of(x)->managed; if(x->managed) log_brinit(x,0); } }
   else if(!strcmp(c,"ehdr")){
     if(x->s_vc!=1){ vorbis_comment_init(&x->vc); x->s_vc=1; vorbis_comment_add_tag(&x->vc,"ENCODER","verif"); }
@@ -205,12 +207,12 @@ static void cmd(char **tok,int nt){
       float **b=vorbis_analysis_buffer(&x->vd,(int)m); if(m>0) gen(x,b,m,sig);
       int ret=vorbis_analysis_wrote(&x->vd,(int)m);
       ev_begin("Wrote"); ev_i("x",e); ev_i("n",m); ev_i("ret",ret); ev_i("sig",sig); ev_est(x); ev_end();
-      if(m>0){ x->submitted+=m; done+=m; }
+      if(m>0){ x->submitted+=m; done+=m; } else x->fed=1;
       drain(x);
       if(m==0) break;
     }while(done<n);
   }
-  else if(!strcmp(c,"eeof")){ int ret=vorbis_analysis_wrote(&x->vd,0); ev_begin("Wrote"); ev_i("x",e); ev_i("n",0); ev_i("ret",ret); ev_i("sig",-1); ev_est(x); ev_end(); drain(x); ev_begin("EncDone"); ev_i("x",e); ev_i("N",x->submitted); ev_i("eos",x->eos_seen); ev_i("npk",x->npk); ev_end(); }
+  else if(!strcmp(c,"eeof")){ int ret=vorbis_analysis_wrote(&x->vd,0); x->fed=1; ev_begin("Wrote"); ev_i("x",e); ev_i("n",0); ev_i("ret",ret); ev_i("sig",-1); ev_est(x); ev_end(); drain(x); ev_begin("EncDone"); ev_i("x",e); ev_i("N",x->submitted); ev_i("eos",x->eos_seen); ev_i("npk",x->npk); ev_end(); }
   else if(!strcmp(c,"eclear")&&nt>=3){
     for(const char *o=tok[2];*o;o++){
       if(*o=='b'||*o=='d'||*o=='i') x->ready=0;
